@@ -27,7 +27,11 @@ RULE = ('array case = front end (keypoints/descriptors/global_features/matches/d
         'two case = two images of one feature type written in turn (names differing only by unicode normalisation form, '
         'case, spacing, or unrelated), first read back, ids listed; rewrite case = DIFFERENT arrays written in turn to the SAME '
         'destination (file or tar member; bigger, smaller, zero rows, other item size), bytes and read-back after every write '
-        'and a bystander file at the end. Names include non-NFC unicode. '
+        'and a bystander file at the end; hist case = a HISTORY of 2-8 writes and location queries on ONE kapture root '
+        '(directory tree or tar archives): all four feature kinds, several types, both orientations (A,B)/(B,A) of image '
+        'pairs, pairs sharing an image, self pairs, repeated destinations, look-alike names -- every returned location, '
+        'every outcome, the WHOLE tree at the end (each file / tar member and its bytes), the arrays read back at the end '
+        'and the ids / pairs listed. Names include non-NFC unicode. '
         'Non-trivial = array cases with at least one element or a zero-row array read back with its column count, '
         'and path cases with a nested or non-ASCII name; distinct = distinct case content.')
 TRUSTED = ['numpy: ndarray.tofile / tobytes emit the elements in C order in the array\'s byte order; fromfile / frombuffer '
@@ -346,6 +350,14 @@ def gen_cases(rng, tier):
                         name, other = name + '.depth', other + '.depth'
                     cases.append({'k': 'rewrite', 'api': api, 'store': store, 'ftype': rng.choice(GOOD_TYPES),
                                   'name': name, 'name2': rng.choice(GOOD_NAMES), 'other': other, 'arrays': arrays})
+    # 6e. a HISTORY on ONE kapture root: several feature kinds / types / images / image pairs written (and paths
+    #     merely asked for) in turn in the same directory tree or tar archives -- the two orientations (A, B) and
+    #     (B, A) of a pair, pairs sharing an image, the same destination written again, look-alike names.  Every path
+    #     the code returns, every outcome, the WHOLE tree at the end (every file / tar member and its bytes), the arrays
+    #     read back at the end and the ids / pairs listed are judged: the location is a function of the names alone,
+    #     whatever the store already holds.
+    for i in range(44 * reps):
+        cases.append(_gen_hist(rng, K, NMAX, i))
     # 7. paths
     for kind in ('Keypoints', 'Descriptors', 'GlobalFeatures'):
         for name in GOOD_NAMES:
@@ -374,6 +386,59 @@ def gen_cases(rng, tier):
     for name in GOOD_NAMES + ODD_NAMES + [_rand_name(rng) for _ in range(20 * reps)]:
         cases.append({'k': 'rpath', 'root': rng.choice(GOOD_ROOTS + ODD_ROOTS), 'name': name})
     return cases
+
+
+def _hist_arr(rng, api, K, NMAX):
+    if api == 'matches':
+        dt, shape = 'float64', [rng.choice([0, 1, 2, 3, rng.randint(2, NMAX)]), 3]
+    else:
+        dt, shape = rng.choice(DTYPES), [rng.choice([0, 1, 2, rng.randint(2, NMAX)]), rng.randint(1, K)]
+    return {'dtype': dt, 'shape': shape, 'bits': rand_bits(rng, dt, shape[0] * shape[1]),
+            'big': api != 'matches' and rng.random() < 0.25, 'layout': rng.choice(LAYOUTS)}
+
+
+def _gen_hist(rng, K, NMAX, i):
+    """a history of writes / path queries on one kapture root (see gen_cases 6e)."""
+    store = 'file' if i % 4 != 3 else 'tar'
+    plain_names = [n for n in GOOD_NAMES]
+    imgs = rng.sample(plain_names, rng.choice([2, 2, 3, 4]))
+    if rng.random() < 0.3:                      # look-alike twins among the images
+        t = rng.choice(NON_NFC_TWINS[:-1])
+        imgs[:2] = [t[0], t[1]]
+    ftypes = rng.sample(GOOD_TYPES, rng.choice([1, 1, 2]))
+    steps = []
+    flavour = i % 4 if i < 24 else rng.choice([0, 1, 2, 3, 4])
+    a, b = imgs[0], imgs[1]
+
+    def w(api, n1, n2=None, op='write', ft=None):
+        steps.append({'op': op, 'api': api, 'ftype': ft or ftypes[0], 'name': n1, 'name2': n2 or rng.choice(imgs),
+                      'arr': _hist_arr(rng, api, K, NMAX)})
+    if flavour == 0:        # both orientations of one pair (second one written, or only asked for)
+        if rng.random() < 0.5:
+            a, b = b, a
+        w('matches', b, a)
+        w('matches', a, b, op=rng.choice(['write', 'write', 'path']))
+        if rng.random() < 0.5:
+            w('matches', b, a, op=rng.choice(['write', 'path']))
+    elif flavour == 1:      # all ordered pairs over the images (self pairs included), shuffled
+        pairs = [(x, y) for x in imgs[:3] for y in imgs[:3]]
+        rng.shuffle(pairs)
+        for x, y in pairs[:rng.randint(3, 6)]:
+            w('matches', x, y, ft=rng.choice(ftypes))
+    elif flavour == 2:      # one image through every feature kind, then again, then a pair in both orientations
+        for api in rng.sample(['keypoints', 'descriptors', 'global_features'], 3):
+            w(api, a, ft=rng.choice(ftypes))
+        w(rng.choice(['keypoints', 'descriptors', 'global_features']), a)
+        w('matches', a, b)
+        w('matches', b, a)
+    else:                   # free mix
+        for _ in range(rng.randint(3, 7)):
+            api = rng.choice(['keypoints', 'descriptors', 'global_features', 'matches', 'matches', 'matches'])
+            x, y = rng.choice(imgs), rng.choice(imgs)
+            w(api, x, y, op='write' if rng.random() < 0.8 else 'path', ft=rng.choice(ftypes))
+        x, y = steps[-1]['name'], steps[-1]['name2']
+        w('matches', y, x, ft=steps[-1]['ftype'])
+    return {'k': 'hist', 'store': store, 'steps': steps}
 
 
 def _rand_name(rng):
@@ -773,6 +838,112 @@ def _run_rewrite(case, root):
     return obs
 
 
+def _hist_key(api, ftype, member):
+    return f'{KIND[api]}|{ftype}|{member}'
+
+
+def _hist_doc(st, store):
+    """the documented destination of a step, stated independently of the code: its key in the tree listing and the
+    location the getter must return (path below the root written 'R/...', or tar member name)."""
+    d, ext = DOC[st['api']]
+    rel = st['name'] + ext if st['api'] != 'matches' else st['name'] + '.overlapping/' + st['name2'] + ext
+    if store == 'tar':
+        return _hist_key(st['api'], st['ftype'], rel), rel
+    p = f'R/{d}/{st["ftype"]}/{rel}'
+    return p, p
+
+
+def _hist_dest(st):
+    return (st['api'], st['ftype'], st['name'], st['name2'] if st['api'] == 'matches' else None)
+
+
+def _run_hist(case, root):
+    import numpy as np
+    from kapture.io.tar import TarHandler
+    tar = case['store'] == 'tar'
+    obs = {'steps': [], 'reads': [], 'tree': [], 'listings': {}}
+
+    def rel(p):
+        return 'R' + p[len(root):] if isinstance(p, str) and p.startswith(root + '/') else p
+
+    def with_handler(st, mode, fn):
+        handler = None
+        try:
+            if tar:
+                tp = _tar_path(st, root)
+                if mode == 'a':
+                    os.makedirs(os.path.dirname(tp), exist_ok=True)
+                elif not os.path.exists(tp):
+                    return {'err': 'other', 'msg': 'no tar archive'}
+                handler = TarHandler(tp, mode)
+            return fn(handler)
+        finally:
+            if handler is not None:
+                handler.close()
+    for st in case['steps']:
+        o = {'path': None, 'write': None}
+
+        def do(handler, st=st, o=o):
+            try:
+                loc = _locate(st, root, handler)
+            except Exception as e:
+                o['path'] = f'<{type(e).__name__}>'
+                o['write'] = 'other: locate failed'
+                return
+            o['path'] = rel(loc) if isinstance(loc, str) else loc[0]
+            if st['op'] != 'write':
+                return
+            try:
+                _write(st, loc, build_array(st['arr']))
+                o['write'] = 'ok'
+            except AssertionError:
+                o['write'] = 'refused'
+            except IndexError:
+                o['write'] = 'indexerr'
+            except Exception as e:
+                o['write'] = f'other: {type(e).__name__}: {e}'[:200]
+        if tar and st['op'] != 'write' and not os.path.exists(_tar_path(st, root)):
+            os.makedirs(os.path.dirname(_tar_path(st, root)), exist_ok=True)
+        with_handler(st, 'a', do)
+        obs['steps'].append(o)
+    # the whole tree, read with the standard library only
+    tars = {}
+    for st in case['steps']:
+        d, _ = DOC[st['api']]
+        tars[os.path.join(root, d, st['ftype'], DOC_TAR[st['api']])] = (st['api'], st['ftype'])
+    tree = {}
+    for dp, _, fns in os.walk(root):
+        for fn in fns:
+            p = os.path.join(dp, fn)
+            if tar and p in tars:
+                with tarfile.open(p, 'r') as t:
+                    for m in t.getmembers():            # a later member of the same name replaces the earlier one
+                        tree[_hist_key(*tars[p], m.name)] = t.extractfile(m).read().hex()
+            else:
+                with open(p, 'rb') as f:
+                    tree[rel(p)] = f.read().hex()
+    obs['tree'] = sorted([k, v] for k, v in tree.items())
+    # at the end: every destination read back through the real getter + reader (given what was last written there)
+    last = {}
+    for i, st in enumerate(case['steps']):
+        if st['op'] == 'write' and obs['steps'][i]['write'] == 'ok':
+            last[_hist_dest(st)] = i
+    for i, st in enumerate(case['steps']):
+        if last.get(_hist_dest(st)) != i:
+            obs['reads'].append(None)
+            continue
+        c = dict(st, rd_dtype=st['arr']['dtype'], rd_dsize=st['arr']['shape'][1])
+        obs['reads'].append(with_handler(st, 'r', lambda h, c=c: _read_obs(lambda: _read(c, _locate(c, root, h)))))
+    for st in case['steps']:
+        key = f'{st["api"]}|{st["ftype"]}'
+        if key not in obs['listings']:
+            if tar and not os.path.exists(_tar_path(st, root)):
+                obs['listings'][key] = []
+            else:
+                obs['listings'][key] = with_handler(st, 'r', lambda h, st=st: _listing(st['api'], st['ftype'], root, h))
+    return obs
+
+
 def _run_path(case, root):
     import numpy as np
     import kapture
@@ -833,6 +1004,8 @@ def run_impl(case, ctx):
             return _run_two(case, root)
         if case['k'] == 'rewrite':
             return _run_rewrite(case, root)
+        if case['k'] == 'hist':
+            return _run_hist(case, root)
         return _run_path(case, root)
     finally:
         shutil.rmtree(root, ignore_errors=True)
@@ -955,6 +1128,62 @@ def oracle(case, obs):
         if obs['bystander_hex'] is None or bytes.fromhex(obs['bystander_hex']) != b''.join(b.to_bytes(ISZ[dt], 'little') for b in bits):
             return f'{api}/{case["store"]}: the file of another image changed while this one was rewritten'
         return None
+    if k == 'hist':
+        store = case['store']
+        want, who, paths = {}, {}, {}
+        for i, (st, o) in enumerate(zip(case['steps'], obs['steps'])):
+            key, loc = _hist_doc(st, store)
+            tag = f'history/{store}: {st["op"]} {st["api"]}'
+            if o['path'] != loc:
+                return (f'history/{store}: the location returned for {st["api"]} is not the documented path of the image '
+                        f'name(s) (a history of {st["api"]} writes; the location must not depend on what the store holds)')
+            if st['op'] != 'write':
+                continue
+            if o['write'] != 'ok':
+                return f'{tag}: writer failed on a supported array: {o["write"]}'
+            dt, bits = st['arr']['dtype'], st['arr']['bits']
+            want[key] = b''.join(b.to_bytes(ISZ[dt], 'little') for b in bits)
+            who[key] = (i, st)
+        ks = sorted(want)
+        for x, y in zip(ks, ks[1:]):
+            if y.startswith(x + '/'):
+                return None             # a file name that is also a directory of another image: not a legal history
+        tree = {k2: v for k2, v in obs['tree']}
+        for key in ks:
+            i, st = who[key]
+            if key not in tree:
+                return f'history/{store}: no file at the documented location of a {st["api"]} array written earlier in the history'
+        for key in ks:
+            i, st = who[key]
+            got = bytes.fromhex(tree[key])
+            if got != want[key]:
+                if len(got) != len(want[key]):
+                    return (f'history/{store}: a {st["api"]} file no longer has the size of the last array written to it '
+                            f'(replaced by the write of another image / pair?)')
+                return f'history/{store}: a {st["api"]} file is not the dump of the last array written to it'
+        if set(tree) != set(want):
+            return f'history/{store}: the tree holds files that no write of the history should have created'
+        for i, (st, r) in enumerate(zip(case['steps'], obs['reads'])):
+            key, _ = _hist_doc(st, store)
+            if st['op'] != 'write' or who.get(key, (None,))[0] != i:
+                continue
+            a = st['arr']
+            if r is None or 'err' in r:
+                return f'history/{store}: reading a {st["api"]} array back at the end failed'
+            if r['dtype'] != a['dtype'] or r['shape'] != a['shape'] or r['bits'] != a['bits']:
+                return f'history/{store}: the {st["api"]} array read back at the end is not the last one written for these image name(s)'
+        for lk, listing in obs['listings'].items():
+            api, ftype = lk.split('|', 1)
+            names = set()
+            for key, (i, st) in who.items():
+                if st['api'] == api and st['ftype'] == ftype:
+                    names.add((st['name'], st['name2']) if api == 'matches' else st['name'])
+            if not names:
+                continue
+            exp = sorted([list(n) for n in names]) if api == 'matches' else sorted(names)
+            if listing != exp:
+                return f'history/{store}: the {api} ids listed from the store are not the image name(s) written'
+        return None
     if k == 'bytes':
         # a conformant file (whole rows) must read as the array it denotes
         api = case['api']
@@ -1068,6 +1297,19 @@ def encode(case, obs):
         oby = _cn_list(bytes.fromhex(obs['bystander_hex'])) if obs.get('bystander_hex') is not None else '[999%N]'
         return (f'(CRewrite {_API[case["api"]]} {"SFile" if case["store"] == "file" else "STar"} {_cn_list(by)} '
                 f'{kv.clist(steps)} {oby})')
+    if k == 'hist':
+        def mem3(a):
+            return ('{| m_dtype := %s; m_shape := %s; m_elems := %s; m_big := %s; m_layout := %s |}' % (
+                CQ_DT[a['dtype']], _cn_list(a['shape']), _cn_list(a['bits']), kv.cbool(a['big']), _LAY[a['layout']]))
+        steps = []
+        for st, o, r in zip(case['steps'], obs['steps'], obs['reads']):
+            hs = ('{| h_write := %s; h_api := %s; h_ftype := %s; h_a := %s; h_b := %s; h_mem := %s |}' % (
+                kv.cbool(st['op'] == 'write'), _API[st['api']], kv.cstr(st['ftype']), kv.cstr(st['name']),
+                kv.cstr(st['name2']), mem3(st['arr'])))
+            ow = {None: 'WOk', 'ok': 'WOk', 'refused': 'WRefused', 'indexerr': 'WIndexErr'}.get(o['write'], 'WOther')
+            steps.append(kv.cpair(hs, kv.cstr(str(o['path'])), ow, _robs(r)))
+        tree = kv.clist(kv.cpair(kv.cstr(k2), _cn_list(bytes.fromhex(v))) for k2, v in obs['tree'])
+        return f'(CHist {"SFile" if case["store"] == "file" else "STar"} {kv.clist(steps)} {tree})'
     if k == 'two':
         def mem(a):
             return ('{| m_dtype := %s; m_shape := %s; m_elems := %s; m_big := false; m_layout := LContig |}' % (
@@ -1101,6 +1343,8 @@ def nontrivial(case, obs):
         return case['n1'] != case['n2']
     if case['k'] == 'rewrite':
         return len(case['arrays']) >= 2
+    if case['k'] == 'hist':
+        return sum(1 for st in case['steps'] if st['op'] == 'write') >= 2
     name = case.get('name', case.get('a', ''))
     return '/' in name or any(ord(ch) > 127 for ch in name)
 
@@ -1124,6 +1368,13 @@ def classify(case, obs):
         shr = any(y < x for x, y in zip(sizes, sizes[1:]))
         zero = any(y == 0 and x > 0 for x, y in zip(sizes, sizes[1:]))
         return f'rewrite/{case["api"]}/{case["store"]}/{"shrinks" if shr else "grows"}{"+to-empty" if zero else ""}'
+    if k == 'hist':
+        pairs = [(st['name'], st['name2']) for st in case['steps'] if st['api'] == 'matches']
+        both = any((y, x) in pairs and x != y for x, y in pairs)
+        dests = [_hist_dest(st) for st in case['steps'] if st['op'] == 'write']
+        return (f'hist/{case["store"]}/{"both-orientations" if both else "one-orientation"}/'
+                f'{"rewrites" if len(set(dests)) < len(dests) else "fresh"}/'
+                f'{"with-queries" if any(st["op"] != "write" for st in case["steps"]) else "writes-only"}')
     if k == 'two':
         import unicodedata
         twin = unicodedata.normalize('NFC', case['n1']) == unicodedata.normalize('NFC', case['n2'])
@@ -1189,6 +1440,22 @@ def shrink(case):
             if case[key] != val and case['other'] != val:
                 yield dict(case, **{key: val})
         return
+    if case['k'] == 'hist':
+        steps = case['steps']
+        if len(steps) > 1:
+            for i in range(len(steps)):
+                yield dict(case, steps=steps[:i] + steps[i + 1:])
+        for i, st in enumerate(steps):
+            a = st['arr']
+            r, c = a['shape']
+            for r2 in (0, 1):
+                if r2 < r:
+                    yield dict(case, steps=steps[:i] + [dict(st, arr=dict(a, shape=[r2, c], bits=a['bits'][:r2 * c]))] + steps[i + 1:])
+            if a['big'] or a['layout'] != 'C':
+                yield dict(case, steps=steps[:i] + [dict(st, arr=dict(a, big=False, layout='C'))] + steps[i + 1:])
+            if st['ftype'] != 'SIFT':
+                yield dict(case, steps=[dict(x, ftype='SIFT') for x in steps])
+        return
     if case['k'] == 'two':
         for key in ('a1', 'a2'):
             a = case[key]
@@ -1229,7 +1496,9 @@ LEVEL_TEXT = ('Theorems in coq/Props/C03.v hold for all 11 element types, all sh
               'the in-memory byte order and layout; little-endian digits are a bijection for every width; the readers fail '
               'exactly in the characterised cases; matches are float64 x 3 and depth maps float32 h x w as the '
               'specification says; the path functions equal <root>/<dir>/<type>/<image><ext> and '
-              '<a>.overlapping/<b>.matches on normalised names and are injective. The model is tied to the code by '
+              '<a>.overlapping/<b>.matches on normalised names and are injective; after ANY history of writes on one root every '
+              'destination holds the last array written to it (the two orientations of a pair keep separate files) and the '
+              'location never depends on the store. The model is tied to the code by '
               'writing arrays through the real front ends into real files / tar archives and comparing the raw bytes and '
               'the arrays read back inside Coq.')
 LEVEL_NOTE = ('Trusted: Coq kernel + vm_compute, harness encoders, numpy tofile/tobytes/fromfile/frombuffer/reshape and '
